@@ -1139,6 +1139,84 @@ def check_c14(tier, seed):
     return 1 if violations else 0
 
 
+def check_c16(tier, seed):
+    prop = 'C16'
+    kf = known_findings()
+    build_harness()
+    quick = tier == 'quick'
+    fam = family('gens')
+    out, wall = tlc('MCGen.tla', 'SPECIFICATION Spec\nCONSTANT MaxPush = %d\nINVARIANT GenLaws\nPROPERTY Monotone\n'
+                    'PROPERTY Terminates\nCHECK_DEADLOCK FALSE\n' % (1 if quick else 2), 'gen-mc', env={'MODELS': fam},
+                    workers=8, timeout=3000)
+    states, trans = tlc_stats(out)
+    if 'Error:' in out or states == 0:
+        raise ToolError('Gen.tla fails its own laws: the specification is wrong\n' + out[-1500:])
+    d = '%s/c16-%s' % (WORK, tier)
+    shutil.rmtree(d, ignore_errors=True)
+    os.makedirs(d)
+    shards = 6 if quick else 48
+
+    def run(i):
+        f = '%s/gen-%02d.ndjson' % (d, i)
+        sh([HARNESS, 'gen', '--models', fam, '--out', f, '--seed', str(seed * 100 + i), '--workdir', d + '/run']
+           + (['--push'] if i % 2 == 0 else []), check=True, timeout=3000)
+        out, wall = tlc('TraceGen.tla', 'SPECIFICATION GSpec\nPOSTCONDITION GDone\nCHECK_DEADLOCK FALSE\n', 'gen-tr-%d' % i,
+                        env={'TRACE': f}, workers=1, timeout=3000, java_opts=JOPTS)
+        if 'GEN|DONE' not in out:
+            raise ToolError('TraceGen failed on %s\n%s' % (f, out[-2000:]))
+        known = []
+        for ln in out.split('\n'):
+            if ln.startswith('"GEN|KNOWN'):
+                p = json.loads(ln).split('|')
+                known.append(dict(kf=p[2], a=p[3], b=p[4]))
+        n = sum(1 for ln in open(f) if '"ev":"gen"' in ln)
+        sc = sum(1 for ln in open(f) if '"ev":"genmodel"' in ln)
+        return dict(file=f, bad=parse_marked(out, 'GEN'), known=known, obs=n, scen=sc)
+
+    with concurrent.futures.ThreadPoolExecutor(max_workers=8) as ex:
+        results = list(ex.map(run, range(shards)))
+    violations, known_seen = [], {}
+    for r in results:
+        seen = set()
+        for b in r['bad']:
+            if b['a'] in seen:
+                continue
+            seen.add(b['a'])
+            ls = scenario_lines_by(r['file'], int(b['a']), '"ev":"genmodel"')
+            path = replay_file(prop, tier, seed, 'generated acts / hooks deviate from Gen.tla: ' + b['what'],
+                               dict(at_line=b['b'], trace=[json.loads(y) for y in ls]))
+            violations.append((b['what'], path))
+        for k in r['known']:
+            if k['kf'] in kf and kf[k['kf']]['status'] == 'open':
+                known_seen[k['kf']] = known_seen.get(k['kf'], 0) + 1
+            else:
+                ls = scenario_lines_by(r['file'], int(k['a']), '"ev":"genmodel"')
+                path = replay_file(prop, tier, seed, 'classified as %s, which is not an open known finding' % k['kf'],
+                                   dict(at_line=k['b'], trace=[json.loads(y) for y in ls]))
+                violations.append((k['kf'], path))
+    for k, n in sorted(known_seen.items()):
+        print('KNOWN-FINDING: property=%s %s (%d observations): %s' % (prop, k, n, kf[k]['what'][:160]))
+    sample = [json.loads(x) for x in scenario_lines_by(results[0]['file'], 40, '"ev":"genmodel"')][:5]
+    write_evidence(prop, tier, seed, 'model_checking', dict(
+        states=states, transitions=trans, traces_validated_against_impl=sum(r['scen'] for r in results) - len(violations),
+        samples=[sample],
+        model_checking=dict(spec='spec/Gen.tla via spec/MCGen.tla', invariants=['GenLaws', 'Monotone', 'Terminates'],
+                            programs=count_lines(fam)),
+        conformance=dict(scenarios=sum(r['scen'] for r in results), observations=sum(r['obs'] for r in results),
+                         deviations=len(violations), known_findings=known_seen),
+        rule='every program of the gens family (parallel / sequence over lists of 0..3 elements, one or two acts per group, '
+             'nested generators, blocks, message acts, hooks on workflow / step / act for created, completed, before_update, '
+             'updated, step; pushes into the open step) is run under the gate with a random release order of the engine\'s '
+             'internal tasks and a random order of client completions; after every client call TLC recomputes from Gen.tla the '
+             'open interrupts with index path and value, the groups every generator has opened, the firings of every hook, '
+             'and whether the step and the process have finished'),
+        len(violations), ['list elements are strings u0..u3; hook acts are message acts; one step per program',
+                          'timeout / catch hooks are C19 / C06'])
+    for what, path in violations[:5]:
+        print('VIOLATION property=%s replay=%s' % (prop, path))
+    return 1 if violations else 0
+
+
 # --------------------------------------------------------------------------------------------
 
 
@@ -1191,6 +1269,8 @@ def main(argv):
             return check_c18(tier, seed)
         if prop == 'C14':
             return check_c14(tier, seed)
+        if prop == 'C16':
+            return check_c16(tier, seed)
         print('no check for', prop)
         return 2
     except ToolError as e:
